@@ -46,7 +46,8 @@ impl IsZeroBig for BigUint {
 
 /// calculate_t against the exact rational bound over a parameter grid (concrete oracle)
 pub fn t_minimal(thorough: bool) -> Verdict {
-    let lambdas: Vec<usize> = if thorough { vec![1, 2, 8, 20, 40, 64, 80, 100, 128, 160, 200, 240] } else { vec![1, 8, 40, 100, 128, 200] };
+    // the upper end (lambda close to the field's bit size) is where the n/|F| term of the bound matters
+    let lambdas: Vec<usize> = if thorough { vec![1, 2, 8, 20, 40, 64, 80, 100, 128, 160, 200, 240, 244, 246, 247, 248, 249, 250, 251, 252] } else { vec![1, 8, 40, 100, 128, 200, 244, 248, 250, 252] };
     let dists: Vec<(usize, usize)> = vec![(1, 2), (3, 4), (7, 8), (15, 16), (61000, 1521000), (1, 10), (1, 100)];
     let ns: Vec<u128> = vec![1, 2, 16, 195, 1000, 1 << 20, 1 << 40];
     for l in &lambdas {
